@@ -35,13 +35,13 @@ Proof. exact unreachable_is_reported. Qed.
 (* the same under INTERLEAVINGS (Model/LifecycleI.v: the pump, one task of the connection and one user task inside the manager at
    once, the client's handler suspended at every delivery for as long as the schedule likes): after ANY schedule of fault labels and
    task resumptions, once the tasks inside the manager have been resumed to their end the healthy schedule reaches CONNECTED within
-   the same 420 virtual seconds - EXCEPT from the states of finding K10 (a reset that returned with descriptors in place: IDLE,
-   nothing connected, descriptors present, which no branch of the pump leaves) *)
+   the same 420 virtual seconds (before the repair of finding K10 - async_reset now clears the descriptors again when it finishes -
+   the states 'IDLE, nothing connected, descriptors present' were the exception: no branch of the pump leaves them) *)
 Theorem c09_heals_after_any_interleaved_fault_schedule : forall ls s,
-  all_fault ls = true -> irun (ientered true) ls = Some s -> k10_shape s = true \/ heals_within 420 s = true.
+  all_fault ls = true -> irun (ientered true) ls = Some s -> heals_within 420 s = true.
 Proof. exact interleaved_heal. Qed.
 Example c09_interleaved_nonvacuous :
-  Nat.ltb 5000 (List.length (filter (heals_within 420) ireach9)) = true /\ Nat.ltb 100 (List.length (filter k10_shape ireach9)) = true.
+  Nat.ltb 1500 (List.length ireach9) = true /\ existsb (fun s => suspended s SU && suspended s SP) ireach9 = true /\ List.length (filter k10_shape ireach9) = O.
 Proof. exact heal_nonvacuous. Qed.
 
 (* non-vacuity: the fault-reachable set contains every error state and the middle of a connection attempt after a reset *)
